@@ -79,9 +79,12 @@ pub enum RegPath {
     WriteSetup,
     RegisterTwice,
     SetupThenRegister,
+    /// the storage is put into the world as a plain resource, then made known by `setup`
+    InsertThenSetup,
 }
 
-pub const ALL_REG_PATHS: [RegPath; 6] = [
+pub const ALL_REG_PATHS: [RegPath; 7] = [
+    RegPath::InsertThenSetup,
     RegPath::Register,
     RegPath::RegisterWithStorage,
     RegPath::ReadSetup,
@@ -580,6 +583,9 @@ pub trait SlotOps: Send + Sync {
     fn lazy_insert_all(&self, lazy: &LazyUpdate, items: Vec<(Entity, i64)>) -> Vec<u64>;
     fn lazy_remove(&self, lazy: &LazyUpdate, e: Entity);
 
+    /// `entry_inner(2^24).or_insert(..)`: the raw-index entry API with an index the bit set cannot
+    /// hold - the mask update unwinds after the value was written. Returns (value id, panicked).
+    fn entry_huge(&self, w: &World, payload: i64) -> (u64, bool);
     /// DenseVecStorage structural self-check (cfg(specs_verif) hook); `None` if not applicable
     fn dense_check(&self, w: &World) -> Option<Result<(), String>>;
     /// whether the world knows a storage for this slot
@@ -657,6 +663,14 @@ where
             RegPath::SetupThenRegister => {
                 <WriteStorage<C> as SystemData>::setup(w);
                 w.register::<C>();
+            }
+            RegPath::InsertThenSetup => {
+                w.insert(MaskedStorage::<C>::new(Default::default()));
+                if C::KIND.inner == Inner::Hash {
+                    <WriteStorage<C> as SystemData>::setup(w);
+                } else {
+                    <ReadStorage<C> as SystemData>::setup(w);
+                }
             }
         }
     }
@@ -1111,6 +1125,15 @@ where
         lazy.remove::<C>(e);
     }
 
+    fn entry_huge(&self, w: &World, payload: i64) -> (u64, bool) {
+        let (c, id) = C::make(payload);
+        let r = std::panic::catch_unwind(std::panic::AssertUnwindSafe(|| {
+            let mut s = w.write_storage::<C>();
+            let _ = s.entry_inner(HUGE_INDEX).or_insert(c);
+        }));
+        (id, r.is_err())
+    }
+
     fn dense_check(&self, w: &World) -> Option<Result<(), String>> {
         dense_check_impl::<C>(w)
     }
@@ -1134,6 +1157,10 @@ where
     st.downcast_ref::<DenseVecStorage<C>>()
         .map(|d| d.verif_check(&present))
 }
+
+/// an index a hierarchical bit set cannot hold (its capacity is 2^24 indices; 2^24 itself is
+/// still accepted by hibitset's range check)
+pub const HUGE_INDEX: u32 = (1 << 24) + 64;
 
 pub fn all_kinds() -> Vec<Kind> {
     let mut v = vec![];
